@@ -40,6 +40,11 @@ def gen_import_graph(root, rng):
         if rng.random() < 0.25:
             rel = f"{d}/p{i}/__init__.py"
             dotted_tail = f"p{i}"
+        elif rng.random() < 0.2 and f"{d}/{gen.STDLIB_LIKE[i % len(gen.STDLIB_LIKE)]}.py" not in [m_["rel"] for m_ in mods]:
+            # a local module may carry a stdlib module's name; only relative / dotted imports reach it
+            dotted_tail = gen.STDLIB_LIKE[i % len(gen.STDLIB_LIKE)]
+            rel = f"{d}/{dotted_tail}.py"
+            ws.features.add(("stdlib_named_local_module",))
         else:
             rel = f"{d}/m{i}.py"
             dotted_tail = f"m{i}"
@@ -69,7 +74,7 @@ def gen_import_graph(root, rng):
         choices = [absolute]
         if rel_ok:
             choices += [rel_ok, rel_ok]
-        if same_dir:
+        if same_dir and t["tail"] not in gen.STDLIB_LIKE:
             choices.append(t["tail"])
         target = rng.choice(choices)
         if kind == "plugins":
@@ -269,6 +274,12 @@ def gen_venv_layout(root, outside, rng):
             stmt = {"star": "from .helpers import *\n", "plugins": f'pytest_plugins = ["{pkgdir}.helpers"]\n',
                     "explicit": f"from .helpers import {hn}\n"}[how]
             target[f"{base}/{pkgdir}/plugin.py"] = stmt + target[f"{base}/{pkgdir}/plugin.py"]
+            if how != "explicit" and rng.random() < 0.6:
+                # a longer chain: helpers -> level2 -> level3 (plugin status must propagate along it)
+                add(target, f"{base}/{pkgdir}/level2.py", nm + "_l2", tier)
+                add(target, f"{base}/{pkgdir}/level3.py", nm + "_l3", tier)
+                target[f"{base}/{pkgdir}/helpers.py"] = rng.choice(["from .level2 import *\n", f'pytest_plugins = ["{pkgdir}.level2"]\n']) + target[f"{base}/{pkgdir}/helpers.py"]
+                target[f"{base}/{pkgdir}/level2.py"] = "from .level3 import *\n" + target[f"{base}/{pkgdir}/level2.py"]
         ver = "0.1"
         files[f"{sp}/{raw}-{ver}.dist-info/entry_points.txt"] = f"[pytest11]\ne{j} = {pkgdir}.plugin\n"
         files[f"{sp}/{raw}-{ver}.dist-info/direct_url.json"] = json.dumps({"url": "file://" + src_root, "dir_info": {"editable": True}})
